@@ -121,6 +121,11 @@ Theorem c15_shard_duplicate_server : forall sh l1 s l2 s' l3, sh_servers sh = l1
 Proof. exact shard_duplicate_server. Qed.
 Print Assumptions c15_shard_duplicate_server.
 
+Theorem c15_shard_mirror_out_of_range : forall sh m, In m (sh_mirrors sh) ->
+  Z.of_nat (length (sh_servers sh)) <= mi_target m -> shard_validate sh = false.
+Proof. exact shard_mirror_out_of_range. Qed.
+Print Assumptions c15_shard_mirror_out_of_range.
+
 Theorem c15_shard_mirror_role : forall sh s, In s (sh_servers sh) -> sv_role s = Mirror -> shard_validate sh = false.
 Proof. exact shard_mirror_role. Qed.
 Print Assumptions c15_shard_mirror_role.
@@ -179,7 +184,7 @@ Definition ex3 : config :=
                  ([48], shd [sv 1 Primary; sv 2 Replica]);
                  ([48; 50], {| sh_servers := [sv 6 Replica];
                                sh_mirrors := [{| mi_host := h1; mi_port := 9; mi_target := 0 |};
-                                              {| mi_host := h1; mi_port := 9; mi_target := 7 |}] |})]
+                                              {| mi_host := h1; mi_port := 10; mi_target := 0 |}] |})]
                 [([48], usr [117] 5); ([49], usr [118] 1)] (DShard 2) s_any].
 
 Example ex3_accepted : accept ex3 = true /\ small ex3 /\ typed ex3.
@@ -194,7 +199,7 @@ Example ex3_addressing :
     map server_of (candidates b1 2 None) = [sv 6 Replica] /\
     get_candidates b1 None (Some Primary) = Some [] /\
     get_candidates b1 (Some 3) None = None /\
-    map (fun a => length (a_mirrors a)) (all_addresses b1) = [0; 0; 0; 0; 0; 1]%nat.
+    map (fun a => length (a_mirrors a)) (all_addresses b1) = [0; 0; 0; 0; 0; 2]%nat.
 Proof. eexists. eexists. vm_compute. repeat split; reflexivity. Qed.
 
 (* the witnesses of the repaired defects must stay rejected *)
@@ -216,6 +221,11 @@ Example regress_connect_timeout_zero :
 Proof. vm_compute. reflexivity. Qed.
 Example regress_mirror_role_server :
   accept (mkcfg [mkpool [([48], shd [sv 1 Mirror])] [([48], usr [117] 5)] (DShard 0) s_any]) = false.
+Proof. vm_compute. reflexivity. Qed.
+Example regress_mirror_target_out_of_range :
+  accept (mkcfg [mkpool [([48], {| sh_servers := [sv 1 Primary];
+                                   sh_mirrors := [{| mi_host := h1; mi_port := 2; mi_target := 7 |}] |})]
+                        [([48], usr [117] 5)] (DShard 0) s_any]) = false.
 Proof. vm_compute. reflexivity. Qed.
 (* auth_query_user + auth_query_password without auth_query (panicked in from_config before
    the repair of Pool::is_auth_query_configured): accepted, and built *)
